@@ -306,4 +306,7 @@ pub fn run(rc: &mut RunCtx) {
     rc.require_label("random_slices", "len9", 50_000);
     rc.require_label("written_random", "sign_boundary", 10_000);
     rc.require_label("written_random", "width_boundary", 10_000);
+    if !rc.quick() {
+        rc.run_fuzz(None, 16);
+    }
 }
